@@ -88,6 +88,8 @@ def judge(op, impl, model, spec):
             nxt = "none" if acc == cut else "err:io:eof"
             good = (len(toks) >= n + 1 and all(tok_matches(t, e) for t, e in zip(toks, et)) and toks[n] == nxt
                     and not any(t.startswith("some:") for t in toks[n:]))
+        elif kind == "pause":
+            good = toks == F.ann(op, "exp").split("/") and kv["rem"] == "0"
         elif kind == "maxlen":
             # first frame's payload length vs max_len
             ln = int(F.ann(op, "len"))
@@ -141,6 +143,28 @@ def frag_ops(tier):
         for at in sorted({0, 1, 3, 4, 5, len(st) - 1, len(st)} & set(range(len(st) + 1))) + ([4 + len(F.payload(vs[0]))] if len(vs) > 1 else []):
             for n in (2, 7, 8, 9, 10, 17, 64, 300):
                 ops.append(f"fread 100 {len(vs) + 2} {gen.hexb(st)} {F.script_tok(with_intr(parts, (at,) * n))} #k=frag #p={ptag}")
+    return ops
+
+
+def pause_ops(rng, tier):
+    """a source that answers 0 bytes exactly on frame boundaries (a pipe whose writer pauses, a file that grows) and goes on afterwards: every 0 at a
+    boundary is one clean end, and the SAME reader delivers the frames that arrive later"""
+    ops = []
+    for s in [x for x in SMALL + MEDIUM if x != "-"]:
+        vs = F.parse_vals(s)
+        ps = [F.payload(v) for v in vs]
+        for pattern in range(1, 2 ** min(len(vs) + 1, 4)):
+            evs, exp = [], []
+            for i, p in enumerate(ps):
+                for _ in range((pattern >> i) & 1):
+                    evs.append("z"); exp.append("none")
+                    if (pattern * 7 + i) % 3 == 0:
+                        evs.append("z"); exp.append("none")
+                evs += [4, len(p)] if len(p) else [4]
+                d = F.decode_payload(p)
+                exp.append("some:" + d[1] if d[0] == "some" else "err:decode")
+            exp += ["none", "none"]
+            ops.append(f"fread 100000 {len(exp)} {gen.hexb(stream_of(vs))} {F.script_tok(evs + [9, 9])} #k=pause #exp={'/'.join(exp)}")
     return ops
 
 
@@ -328,6 +352,7 @@ def mk(name, ops, rule):
 def streams(rng, tier):
     return [
         mk("reader-fragmentation", frag_ops(tier), "all compositions x Interrupted placements; oracle: values then none, rem=0"),
+        mk("reader-paused-source", pause_ops(rng, tier), "a source that answers 0 bytes on frame boundaries and goes on afterwards: one clean end per 0, then the frames that follow, from the same reader"),
         mk("reader-truncation", trunc_ops(rng, tier), "every cut; oracle: complete frames' values, then none on a boundary / unexpected-eof inside a frame, never a value after"),
         mk("reader-resync", resync_ops(rng, tier), "bad payloads between good frames; oracle: per-frame decode result by the orchestrator's own decoder"),
         mk("reader-maxlen", maxlen_ops(rng, tier), "max_len around the frame size, hostile prefixes; oracle: err:len with buffer untouched, peak allocation request bounded"),
